@@ -89,14 +89,19 @@ func (tf *typeFlow) resultTypes(fn *ssa.Function) map[string]bool {
 			continue
 		}
 		// returns on a provably-error path carry no value
-		if idx := errIndex(fn.Signature); idx > 0 && tf.w.nonNilErr(ret.Results[idx], nil, nil, 0) {
-			if isNilConst(ret.Results[0]) {
+		if idx := errIndex(fn.Signature); idx > 0 {
+			if tf.w.nonNilErr(ret.Results[idx], nil, nil, 0) && isNilConst(ret.Results[0]) {
 				continue
 			}
+			// `return v, err` on the edge where err was tested non-nil: the value is not used by callers
+			f := tf.w.flow(fn)
+			if env := f.At(b); env != nil {
+				if s, has := env["("+f.term(ret.Results[idx]).Key()+" != nil:error)"]; has && s.Equal(single(1)) {
+					continue
+				}
+			}
 		}
-		for k := range tf.typesOf(ret.Results[0], fn, map[ssa.Value]bool{}) {
-			out[k] = true
-		}
+		addExcl(out, tf.typesOf(ret.Results[0], fn, map[ssa.Value]bool{}), assertedFalseDominating(ret.Results[0], b))
 	}
 	tf.memo[fn] = out
 	return out
@@ -121,12 +126,17 @@ func (tf *typeFlow) typesOf(v ssa.Value, fn *ssa.Function, seen map[ssa.Value]bo
 	case *ssa.ChangeInterface:
 		add(tf.typesOf(x.X, fn, seen))
 	case *ssa.Phi:
-		for _, e := range x.Edges {
-			add(tf.typesOf(e, fn, seen))
+		for i, e := range x.Edges {
+			// on the false edge of a comma-ok assertion of e the asserted type is excluded
+			excl := assertedFalseOnEdge(e, x.Block().Preds[i], x.Block())
+			addExcl(out, tf.typesOf(e, fn, seen), excl)
 		}
 	case *ssa.Extract:
 		if c, ok := x.Tuple.(*ssa.Call); ok && x.Index == 0 {
 			add(tf.callTypes(c, fn, seen))
+		} else if ta, ok := x.Tuple.(*ssa.TypeAssert); ok && x.Index == 0 {
+			n, _ := carrierName(ta.AssertedType)
+			out[n] = true
 		} else {
 			out["?extract"] = true
 		}
@@ -153,6 +163,90 @@ func (tf *typeFlow) typesOf(v ssa.Value, fn *ssa.Function, seen map[ssa.Value]bo
 			out[n] = true
 		} else {
 			out["?"+fmt.Sprintf("%T", v)] = true
+		}
+	}
+	return out
+}
+
+// addExcl adds the types of m to out, dropping the excluded concrete types;
+// an unresolved parameter keeps the exclusion for substitution at call sites.
+func addExcl(out, m map[string]bool, excl []string) {
+	ex := map[string]bool{}
+	for _, e := range excl {
+		ex[e] = true
+	}
+	for k := range m {
+		if ex[k] {
+			continue
+		}
+		if strings.HasPrefix(k, "param:") && len(excl) > 0 {
+			base, old := k, ""
+			if j := strings.Index(k, "\\"); j >= 0 {
+				base, old = k[:j], k[j+1:]
+			}
+			all := map[string]bool{}
+			for _, e := range strings.Split(old, ",") {
+				if e != "" {
+					all[e] = true
+				}
+			}
+			for _, e := range excl {
+				all[e] = true
+			}
+			k = base + "\\" + strings.Join(sortedKeys(all), ",")
+		}
+		out[k] = true
+	}
+}
+
+// assertedFalseOnEdge: types T such that pred ends in `if ok` of
+// `_, ok := e.(T)` and the edge pred→to is the false edge.
+func assertedFalseOnEdge(e ssa.Value, pred, to *ssa.BasicBlock) []string {
+	iff, ok := pred.Instrs[len(pred.Instrs)-1].(*ssa.If)
+	if !ok || pred.Succs[1] != to || pred.Succs[0] == to {
+		return nil
+	}
+	ex, ok := iff.Cond.(*ssa.Extract)
+	if !ok || ex.Index != 1 {
+		return nil
+	}
+	ta, ok := ex.Tuple.(*ssa.TypeAssert)
+	if !ok || !ta.CommaOk || ta.X != e {
+		return nil
+	}
+	n, _ := carrierName(ta.AssertedType)
+	return append([]string{n}, assertedFalseDominating(e, pred)...)
+}
+
+// assertedFalseDominating: types T for which block b is dominated by the
+// false successor of an `if ok` on `_, ok := e.(T)`.
+func assertedFalseDominating(e ssa.Value, b *ssa.BasicBlock) []string {
+	var out []string
+	refs := e.Referrers()
+	if refs == nil {
+		return nil
+	}
+	for _, ref := range *refs {
+		ta, ok := ref.(*ssa.TypeAssert)
+		if !ok || !ta.CommaOk {
+			continue
+		}
+		for _, r2 := range *ta.Referrers() {
+			ex, ok := r2.(*ssa.Extract)
+			if !ok || ex.Index != 1 {
+				continue
+			}
+			for _, r3 := range *ex.Referrers() {
+				iff, ok := r3.(*ssa.If)
+				if !ok {
+					continue
+				}
+				fs := iff.Block().Succs[1]
+				if fs != iff.Block().Succs[0] && len(fs.Preds) == 1 && fs.Dominates(b) {
+					n, _ := carrierName(ta.AssertedType)
+					out = append(out, n)
+				}
+			}
 		}
 	}
 	return out
@@ -194,13 +288,24 @@ func (tf *typeFlow) callTypes(c *ssa.Call, fn *ssa.Function, seen map[ssa.Value]
 		return out
 	}
 	for _, cal := range callees {
-		if tf.isSanitizer(cal) {
-			for k := range tf.typesOf(c.Call.Args[0], fn, seen) {
-				if _, isC := map[string]bool{"reflect.Value": true, "*hessian._refHolder": true}[k]; !isC {
-					out[k] = true
+		if qualifiedFnName(cal) == "(reflect.Value).Interface" {
+			// the content of a reflect.Value: the decoder's ref list holds
+			// reflect.ValueOf(holder) for lists, so a generic Value may unwrap to
+			// the holder; the holder's own `value` field is the slice itself
+			out["dyn"] = true
+			recv := c.Call.Args[0]
+			fromHolderField := false
+			if ld, ok := recv.(*ssa.UnOp); ok && ld.Op == token.MUL {
+				if fa, ok := ld.X.(*ssa.FieldAddr); ok && strings.HasSuffix(typeStr(fa.X.Type()), "_refHolder") {
+					fromHolderField = true
 				}
 			}
-			out["unwrapped"] = true
+			if fld, ok := recv.(*ssa.Field); ok && strings.HasSuffix(typeStr(fld.X.Type()), "_refHolder") {
+				fromHolderField = true
+			}
+			if !fromHolderField {
+				out["*hessian._refHolder"] = true
+			}
 			continue
 		}
 		if !tf.w.inPkg(cal) {
@@ -218,16 +323,28 @@ func (tf *typeFlow) callTypes(c *ssa.Call, fn *ssa.Function, seen map[ssa.Value]
 		}
 		for k := range tf.resultTypes(cal) {
 			if strings.HasPrefix(k, "param:") {
-				// the callee returns its parameter: substitute the argument
+				// the callee returns its parameter (minus the types it asserted away): substitute the argument
+				base, exclS := k, ""
+				if j := strings.Index(k, "\\"); j >= 0 {
+					base, exclS = k[:j], k[j+1:]
+				}
+				excl := map[string]bool{}
+				for _, e := range strings.Split(exclS, ",") {
+					if e != "" {
+						excl[e] = true
+					}
+				}
 				for i, p := range cal.Params {
-					if "param:"+p.Name() == k {
+					if "param:"+p.Name() == base {
 						ai := i
 						if cal.Signature.Recv() != nil {
 							// Params includes the receiver; Args of a static method call too
 						}
 						if ai < len(c.Call.Args) {
 							for kk := range tf.typesOf(c.Call.Args[ai], fn, seen) {
-								out[kk] = true
+								if !excl[kk] {
+									out[kk] = true
+								}
 							}
 						}
 					}
@@ -311,7 +428,7 @@ func (w *World) ruleCarrierEscape(r *Report, rule, ruleStore string) {
 		}
 	}
 	sort.Strings(san)
-	r.role("unwrapping helpers (comma-ok assert every carrier type)", uniq(san))
+	_ = san
 	r.floor(rule, n, 7)
 	// R1b: container stores
 	m := 0
@@ -583,6 +700,35 @@ func (w *World) rulePayloadUnits(r *Report, rule string) {
 		}
 	}
 	r.add(rule, "readRunes · one ReadRune per buffer element", w.pos(rr.Pos()), nCalls == 1 && inLoop && boundOK, fmt.Sprintf("%d ReadRune call(s) inside the loop bounded by len(buf)=%v", nCalls, boundOK))
+	// the payload readers reject nothing but a failed read (every code point is content)
+	for _, name := range []string{"readRunes", "readBytes"} {
+		fn := w.fn(name)
+		if fn == nil {
+			continue
+		}
+		idx := errIndex(fn.Signature)
+		okAll, fact := true, "every error returned is the underlying reader's error"
+		for _, b := range fn.Blocks {
+			ret, isRet := b.Instrs[len(b.Instrs)-1].(*ssa.Return)
+			if !isRet || isNilConst(ret.Results[idx]) {
+				continue
+			}
+			ex, isEx := ret.Results[idx].(*ssa.Extract)
+			good := false
+			if isEx {
+				if c, isC := ex.Tuple.(*ssa.Call); isC {
+					if c.Call.IsInvoke() || (c.Call.StaticCallee() != nil && qualifiedFnName(c.Call.StaticCallee()) == "io.ReadFull") {
+						good = true
+					}
+				}
+			}
+			if !good {
+				okAll = false
+				fact = "the error returned at " + w.instrPos(ret) + " is " + describeVal(ret.Results[idx], nil) + ", not a read failure: some payload content is rejected"
+			}
+		}
+		r.add(rule, name+" · rejects nothing but a failed read", w.pos(fn.Pos()), okAll, fact)
+	}
 }
 
 func rulesC06(w *World, r *Report) {
@@ -592,8 +738,11 @@ func rulesC06(w *World, r *Report) {
 	}
 	w.ruleLenReader(r, "C06.R2 string/binary headers pulled exactly", "string")
 	w.ruleLenReader(r, "C06.R2 string/binary headers pulled exactly", "binary")
+	w.ruleLenEncoder(r, "C06.R2 string lengths written count the unit the reader pulls", "string")
+	w.ruleLenEncoder(r, "C06.R2 binary lengths written count the unit the reader pulls", "binary")
 	w.rulePayloadUnits(r, "C06.R2 payload read in the unit the length counts")
 	w.ruleLoopExits(r, "C06.R3 loop exit discipline", false)
 	w.ruleTagReadErrors(r, "C06.R4 failed tag/header reads are errors")
 	w.ruleStreamingPersist(r, "C06.R5 streaming entry points keep per-stream state and do not read ahead")
+	include(w, r, "C04")
 }
